@@ -17,9 +17,9 @@ open AGH AGH.Bytes
 on the implementation — for all engines, configurations, upstream answers, queries. -/
 theorem C02_model_meets_spec (e : Engines) (hwf : EnginesWF e) (c : Conf) (u : Upstream) (q : Query) :
     C02.specOK e c u q (handle e c u q) = true := by
-  unfold C02.specOK C02.check handle
+  unfold C02.specOK C02.check
   cases hres : reserved c q
-  · rw [shortCircuit_none c q hres]
+  · rw [handle_eq_main e c u q hres]
     simp only [Bool.false_eq_true, if_false]
     cases hrwc : (filteringOn c && qhost q != [] && legacyRewritten e c (qhost q) q.qtype)
     case true =>
@@ -94,7 +94,7 @@ theorem C02_position_independent (e : Engines) (hwf : EnginesWF e) (c : Conf) (u
   | some ht =>
     obtain ⟨r, hB, hr⟩ := (handleMain_forward e hwf c u q hpre0 hb hs hob).2.2 happ pre rr post ht.1 ht.2 hsplit hpre hfb
     refine ⟨genDNSFilterMessage c q r, pre.map (stripC c) ++ stripC c rr :: post, ?_, ?_, ?_⟩
-    · unfold handle; rw [shortCircuit_none c q hdom, hr]
+    · rw [handle_eq_main e c u q hdom, hr]
     · exact List.any_eq_true.mpr ⟨_, firstBlocked_candidate e c rr ht.1 ht.2 hfb, respBlock_ok e hwf c q ht.1 ht.2 r hB⟩
     · rw [hsplit]; exact sameModuloStrip_stripC c pre rr post
 
@@ -114,7 +114,7 @@ theorem C02_replacement_is_local (e : Engines) (hwf : EnginesWF e) (c : Conf) (u
   | none => simp [hfb] at hoff
   | some ht =>
     obtain ⟨r, hB, hr⟩ := (handleMain_forward e hwf c u q hpre0 hb hs hob).2.2 happ pre rr post ht.1 ht.2 hsplit hpre hfb
-    exact ⟨r, _, by unfold handle; rw [shortCircuit_none c q hdom, hr], hB.1, hB.2.1⟩
+    exact ⟨r, _, by rw [handle_eq_main e c u q hdom, hr], hB.1, hB.2.1⟩
 
 /-- **Allow override per record**: a record all of whose revealed names /
 addresses are allowed (allow-list hit or winning `@@` exception for that very
@@ -140,7 +140,7 @@ theorem C02_clean_unchanged (e : Engines) (hwf : EnginesWF e) (c : Conf) (u : Up
         .done { u.exchange q with answer := if c.aaaaDisabled then u.answer.map stripRR else u.answer } [q] (some ql) := by
   obtain ⟨ql, hql, hnf, hno⟩ := (handleMain_forward e hwf c u q hpre0 hb hs hob).2.1 happ hclean
   refine ⟨ql, hnf, hno, ?_⟩
-  unfold handle; rw [shortCircuit_none c q hdom, hql]
+  rw [handle_eq_main e c u q hdom, hql]
   cases hd : c.aaaaDisabled
   · have hid : stripC c = id := by funext rr; simp [stripC, hd]
     rw [hid, List.map_id]; simp
@@ -159,7 +159,7 @@ theorem C02_not_applicable_passthrough (e : Engines) (hwf : EnginesWF e) (c : Co
     unfold respFilterApplies
     rcases hna with h | h | h <;> simp [h]
   obtain ⟨ql, hql, hnf, hno⟩ := (handleMain_forward e hwf c u q hpre0 hb hs hob).1 happ
-  exact ⟨ql, hnf, hno, by unfold handle; rw [shortCircuit_none c q hdom, hql]⟩
+  exact ⟨ql, hnf, hno, by rw [handle_eq_main e c u q hdom, hql]⟩
 
 /-- **A rewritten query gets its own question back.**  When a legacy rewrite maps
 the name to a canonical name without addresses, the canonical name — and only
